@@ -138,11 +138,13 @@ static void gen_stmt(Gen *g) {
         break; }
     }
 }
-static void gen_program(uint64_t pseed, Buf *src) {
+void heap_gen_program(uint64_t pseed, Buf *src);
+static void gen_program(uint64_t pseed, Buf *src) { heap_gen_program(pseed, src); }
+void heap_gen_program(uint64_t pseed, Buf *src) {
     gs = pseed * 0x9E3779B97F4A7C15ull + 12345; gr(2); gr(2);
     Gen g; memset(&g, 0, sizeof g); g.b = src;
     buf_printf(src, "%s", PRELUDE);
-    buf_printf(src, "fn main() -> int {\n");
+    buf_printf(src, "fn main() -> int {\n    (println \"G%llu\")\n", (unsigned long long)pseed);
     buf_printf(src, "    let mut i0: int = %u\n    let mut i1: int = 1\n    let mut s0: string = \"s%u\"\n    let mut s1: string = (+ s0 \"-\")\n"
                "    let mut a0: array<int> = [1, 2, 3]\n    let mut q0: array<string> = [s0, \"lit\"]\n    let mut p0: P = (mkP 1 s1 a0)\n"
                "    let mut t0: (int, string) = (7, s0)\n    let mut u0: U = U.A { uv: 3 }\n    let mut f0: fn(int) -> int = (mkadd 2 s0)\n"
